@@ -187,8 +187,8 @@ func c02Spec() *propSpec {
 
 func c12Spec() *propSpec {
 	return &propSpec{
-		ID: "C12", Harness: "poolsim", Level: "exploration", Chunk: 1, Workers: 16, // one case per process: txpool keeps unexported package state (expiry timer)
-		Quick:    tierParams{Runs: 900, BudgetS: 75, PerRunS: 300, RaceRuns: 0, ShrinkAttempts: 120, ShrinkS: 120},
+		ID: "C12", Harness: "poolsim", Level: "exploration", Chunk: 1, Workers: 16, HangIsViolation: true, // one case per process: txpool keeps unexported package state (expiry timer)
+		Quick:    tierParams{Runs: 900, BudgetS: 75, PerRunS: 60, RaceRuns: 0, ShrinkAttempts: 120, ShrinkS: 120},
 		Thorough: tierParams{Runs: 16000, BudgetS: 1200, PerRunS: 900, RaceRuns: 0, ShrinkAttempts: 400, ShrinkS: 400},
 		Rule: "one case = pool options (full/opt-in RBF, expiry 1-14 days, reject-ring size, fee floor, block-commit flag, optional eviction scenario of 125 transactions of ~100 kB) + 4-120 operations, each with its own seed: submit a transaction through the peer / local / trusted path (valid, child and diamond of unconfirmed parents, double spend with lower and higher fee, orphan before parent and the parent later, corrupted signature, overspend, immature coinbase, duplicate of a pooled/rejected/mined transaction, same input twice, non-final), a descendant chain of up to 130 followed by a replacement of its root, mine a block from the pool's own fee-ordered listing / with unknown and conflicting transactions / empty, reorganise 1-3 blocks, clock jumps of 1 s - 16 days followed by Tick(), reject-ring resize, save + reload. After every operation the stated invariants are recomputed from the exported pool state and the reference ledger; a block assembled from a listing prefix must be valid per the ledger and accepted by the node. distinct_nontrivial = distinct (schedule-trace hash, final state).",
 		Components: map[string][]string{
